@@ -79,7 +79,7 @@ def run(tier):
     ck.note('enum_sizes', [len(MCs), len(CPs), len(TCs)])
     if (len(MCs), len(CPs), len(TCs)) != (14, 13, 18):
         ck.ob('C14/enum-sizes', 'UNDECIDED', f"metadata enums have {len(MCs)}x{len(CPs)}x{len(TCs)} specified values, the property speaks of 14x13x18")
-    convs = ['Yuv->Rgb', 'Rgb->Yuv', 'Rgb->LinearRgb', 'LinearRgb->Rgb', 'Yuv->Xyb', 'Xyb->Yuv'] if tier == 'quick' else list(CONVERSIONS)
+    convs = [c for c in CONVERSIONS if c in {x for pr in PAIRS for x in pr}] if tier == 'quick' else list(CONVERSIONS)     # all ten fallible conversions in the quick tier too (it differs by u16 only and the infallible ones)
     Ts = ['u16'] if tier == 'quick' else ['u16', 'u8']
     jobs = []
     for conv in convs:
@@ -194,7 +194,7 @@ def run(tier):
                 else:
                     groups = sorted(distinct.values(), key=len)
                     ck.ob(key, 'REFUTED', f"the per-pixel kernel of {conv} with matrix {m} depends on transfer/primaries: e.g. {groups[0][0]} differs from {groups[-1][0]}")
-    ck.floor('triples_x_conversions', 3276 * 2 + 234 * 2 + 3276 * 2 if tier == 'quick' else 3276 * 2 * 5 + 234 * 4)
+    ck.floor('triples_x_conversions', 3276 * 6 + 234 * 4 if tier == 'quick' else 3276 * 2 * 5 + 234 * 4)
     ck.sample({str(k): v for k, v in list(table.items())[:6]})
     ck.assumptions += ['outcomes are computed with pixel data and geometry abstract; panics whose condition depends on pixel data or geometry are decided by C13/C07']
     return ck.finish()
